@@ -109,19 +109,14 @@ theorem pend_ino_len (fs : FS) (p : Bytes) (x : Inode) : (fs.pend p x).ino fs.in
 /-- A leaf inode: an empty directory, or a regular file, symbolic link or special file. -/
 def LeafIno (x : Inode) : Prop :=
   (x.kind = .dir ∧ x.children = some []) ∨
-  (x.kind ≠ .dir ∧ x.kind ≠ .link ∧ x.children = none ∧ (x.kind = .reg → ∃ d, x.data = some d))
+  (x.kind ≠ .dir ∧ x.children = none ∧ (x.kind = .reg → ∃ d, x.data = some d))
 
 theorem TreeOK.pend {skip : List Bytes} {fs : FS} {p : Bytes} {x : Inode} (h : TreeOK skip fs)
     (hp : Contained p) (hfresh : fs.get? p = none) (hx : x.name = p) (hleaf : LeafIno x)
-    (hxl : x.kind = .sym → Contained x.link) :
+    (hxl : (x.kind = .sym ∨ x.kind = .link) → Contained x.link) :
     TreeOK (p :: skip) (fs.pend p x) := by
   have hpd : p ≠ dotP := by intro e; subst e; rw [h.root] at hfresh; cases hfresh
-  have hxok : InoOK x := ⟨hx ▸ hp, by
-    rintro (hs | hl)
-    · exact hxl hs
-    · rcases hleaf with ⟨hk, _⟩ | ⟨_, hk, _⟩
-      · rw [hl] at hk; cases hk
-      · exact absurd hl hk⟩
+  have hxok : InoOK x := ⟨hx ▸ hp, hxl⟩
   -- an old key keeps its index, and its inode
   have hold : ∀ k i, (fs.pend p x).get? k = some i → k ≠ p → fs.get? k = some i := by
     intro k i hk hne
@@ -188,7 +183,7 @@ theorem TreeOK.pend {skip : List Bytes} {fs : FS} {p : Bytes} {x : Inode} (h : T
       rw [pend_get] at hk
       simp at hk; subst hk
       rw [pend_ino_len] at hcs
-      rcases hleaf with ⟨_, hc'⟩ | ⟨_, _, hc', _⟩
+      rcases hleaf with ⟨_, hc'⟩ | ⟨_, hc', _⟩
       · rw [hc'] at hcs; cases hcs; simp at hc
       · rw [hc'] at hcs; cases hcs
     · have hko := hold k j hk hkp
